@@ -291,7 +291,7 @@ func C17(e *Env) {
 	r.Rule("R16.2", "payload = negated flag (shared with C16)", 2)
 	r.Rule("R16.3", "same accept/reject decision in both modes: the ignore switches are applied on every path through buildRunner, --stub or not (shared with C16)", 2)
 	sharedWriteRules(e)
-	r.Rule("R10.2", "the stub on disk is exactly the generated stub: one os.WriteFile (create, truncate, write) (shared with C10): written over a longer real container it must not keep the old tail", 3)
+	r.Rule("R10.2", "the stub on disk is exactly the generated stub: one os.WriteFile (create, truncate, write) (shared with C10): written over a longer real container it must not keep the old tail", 2)
 	r.Rule("R10.1", "the written path is the -o path (shared with C10)", 1)
 	r.NotCovered = append(r.NotCovered,
 		"user data that changes the formatter's verdict in one mode only is covered by R03.1 (sanitisation), not here",
